@@ -185,6 +185,9 @@ func Verif_KPGC() {
 		}
 		return nil
 	}
+	// the setup entries reached the freelist file through a store flush
+	_, err = fl.Flush()
+	vrt.Assert(err == nil, "setup")
 	mp.StartGC(fl, 1<<40, 0, update)
 
 	for _, rec := range cur {
@@ -258,8 +261,11 @@ func Verif_KPGC() {
 	if len(updates) > 1 {
 		vrt.Cover("kpgc-relocated-two")
 	}
+	// what a store flush does between cycles: primary, (index,) then freelist
 	_, err = mp.Flush()
 	vrt.Assert(err == nil, "flush-no-error")
+	_, err = fl.Flush()
+	vrt.Assert(err == nil, "freelist-flush-no-error")
 	check("after-flush")
 	_, err = mp.GC(context.Background(), lowUse)
 	vrt.Assert(err == nil, "gc2-no-error")
